@@ -12,6 +12,7 @@ import Drv.Util
 import Acpi.Tbl
 import Acpi.Tables.Entries
 import Acpi.Tables.Build
+import Acpi.Tables.Wf
 import Acpi.Spec.Walk
 import Acpi.Spec.Codes
 import Acpi.Spec.Layout
@@ -345,5 +346,47 @@ def checkTbl (case impl : List String) : List Fail := Id.run do
               fails := fails ++ [⟨"prop", "C05", "handle-resolves", s!"{tname}: handle {hv} does not resolve to node #{idx} of its kind"⟩]
     return fails
   | _ => return bad "header"
+
+end Drv
+
+namespace Drv
+open Acpi
+
+/-- case `ent <op token>`  impl `<hex> same|DIFF <as_bytes hex|~> <u8sum|~> <sinks>` | `panic` -/
+def checkEnt (case impl : List String) : List Fail :=
+  match case with
+  | [tokS] =>
+    match parseOpTok tokS with
+    | none => [⟨"corr", "C04,C11,C12,C14", "parse", "op token"⟩]
+    | some op =>
+      let built := buildEntry op.kind op.ctor op.opts
+      let optTag := if op.opts.isEmpty then "C04" else if op.kind = .loc then "C04,C11,C12" else "C04,C11"
+      let wfNote : List Fail := if entryWf op.kind op.ctor op.opts then [] else [⟨"note", "-", "non-wf-case", op.kindName⟩]
+      wfNote ++
+      match impl with
+      | ["panic"] =>
+        (match built with
+         | .ok _ => [⟨"corr", optTag ++ ",C18", "unexpected-panic", s!"{op.kindName}: impl panics, model emits"⟩]
+         | .error _ => [])
+      | [hx, same, ab, us, sinks] =>
+        match hexToBytes hx with
+        | none => [⟨"corr", "C04", "parse", "hex"⟩]
+        | some raw =>
+          (match built with
+           | .error e =>
+             [⟨"corr", optTag ++ ",C18", "missing-panic", s!"{op.kindName}: model panics ({e}), impl emits"⟩] ++
+             (if e = "refused" then [⟨"prop", "C18", "not-refused", s!"{op.kindName}: an oversized count/size was serialised"⟩] else [])
+           | .ok a =>
+             let mraw := entryBytes op.kind a
+             (if mraw ≠ raw then [⟨"corr", optTag, "entry-bytes", s!"{op.kindName}: model {bytesToHex mraw} impl {hx}"⟩] else []) ++
+             (match Spec.layoutOracle op.kind op.ctor op.opts raw with
+              | some e => [⟨"prop", optTag, "layout", s!"{op.kindName}: {e}"⟩]
+              | none => [])) ++
+          (if same ≠ "same" then [⟨"prop", "C14", "nondeterministic", op.kindName⟩] else []) ++
+          (if ab ≠ "~" ∧ ab ≠ hx then [⟨"prop", "C14", "raw-form-differs", s!"{op.kindName}: as_bytes {ab} serialised {hx}"⟩] else []) ++
+          (if us ≠ "~" ∧ nat? us ≠ some (sum8 raw).toNat then [⟨"prop", "C14", "u8sum", s!"{op.kindName}: u8sum {us}, bytes sum to {(sum8 raw).toNat}"⟩] else []) ++
+          (if sinks ≠ "ok" ∧ sinks ≠ "~" then [⟨"prop", "C14", "sink-dependent", s!"{op.kindName}: {sinks}"⟩] else [])
+      | _ => [⟨"corr", "C04,C14", "parse", "observation"⟩]
+  | _ => [⟨"corr", "C04,C14", "parse", "case"⟩]
 
 end Drv
